@@ -18,7 +18,7 @@ using namespace photon::net::http;
 #define NMAX 12          // longest received header text
 #endif
 #ifndef KMAX
-#define KMAX 3           // index slots available in the buffer
+#define KMAX 2           // index slots available in the buffer
 #endif
 #define GAP 2            // free bytes between the longest text and the index
 #define CAP (NMAX + GAP + 8 * KMAX)
@@ -31,7 +31,12 @@ struct H : public Headers {
         ko = e.first.offset(); kl = e.first.length(); vo = e.second.offset(); vl = e.second.length();
     }
 };
-static char BA[CAP], BB[CAP];
+// In Message the header text starts behind the start line (HeadersBase::m_buf = Parser::cur()), i.e. inside a larger buffer: PRE bytes of it
+// precede m_buf here (kv_add computes `begin - 1` before it compares, which needs 8 addressable bytes below a nearly full index).
+#define PRE 8
+static char SA[PRE + CAP], SB[PRE + CAP];
+#define BA (SA + PRE)
+#define BB (SB + PRE)
 static Raw<H> ha, hb;
 
 NOINL static void fill1() { for (unsigned i = 0; i < CAP; i++) BA[i] = (char)nondet_u8(); }
@@ -55,9 +60,15 @@ void harness_headers_parse_oob()
 {
     uint8_t n = nondet_u8(); ASSUME(n >= 1 && n <= NMAX);
     fill2(n);
+    // what Message::append_bytes guarantees before it parses: the received bytes contain the header terminator CRLF CRLF
+    bool term = false;
+    for (unsigned i = 0; i + 4 <= NMAX; i++) if (i + 4 <= n && BA[i] == '\r' && BA[i + 1] == '\n' && BA[i + 2] == '\r' && BA[i + 3] == '\n') term = true;
+    ASSUME(term);
     H* A = new (&ha.v) H; H* B = new (&hb.v) H;
-    int ra = A->reset(BA, CAP, n);
-    int rb = B->reset(BB, CAP, n);
+    // capacity = text + GAP free bytes + exactly KMAX index slots, whatever the text length
+    int ra = A->reset(BA, n + GAP + 8 * KMAX, n);
+    int rb = B->reset(BB, n + GAP + 8 * KMAX, n);
+    CHECK(A->count() <= 16 && B->count() <= 16, "at most 16 index entries (std::sort stays in its insertion-sort range; see jobs.py)");
     CHECK(ra == rb, "header parse: return code does not depend on bytes behind the received data");
     CHECK(A->count() == B->count(), "header parse: header count does not depend on bytes behind the received data");
     bool same = true;
@@ -100,7 +111,8 @@ void harness_headers_parse_wellformed()
     uint8_t body = nondet_u8(); ASSUME(body <= 2); n += body;           // first body bytes received together with the header
     CHECK(n <= NMAX, "harness: text fits the bound");
     H* A = new (&ha.v) H;
-    int r = A->reset(BA, CAP, n);
+    int r = A->reset(BA, n + GAP + 8 * KMAX, n);
+    CHECK(A->count() <= 16, "at most 16 index entries (std::sort stays in its insertion-sort range; see jobs.py)");
     CHECK(r == 0, "well-formed header section parses");
     CHECK(A->count() == nh, "one index entry per header line");
     // the index is sorted by key: compare as a set
